@@ -157,3 +157,10 @@ pub fn compile_errors(ts: TokenStream) -> Vec<(String, Span)> {
     walk(ts, &mut out);
     out
 }
+
+/// Forget every span of earlier cases on this thread (the fallback source map of proc-macro2
+/// otherwise keeps the text of every string ever parsed). Call at the top of each case; no span
+/// from an earlier case may be touched afterwards.
+pub fn fresh_spans() {
+    proc_macro2::extra::invalidate_current_thread_spans();
+}
